@@ -823,11 +823,54 @@ func genCasePruneThenEquivocate(c *Ctx, mode string) {
 	c.Distinct(fmt.Sprintf("prune-equivocate-%d-%d", c.Seed, c.nOps))
 }
 
+// genCaseNestedAfterTwoLinks: validator 0 signs two links to the same target C3 (from C2 and from
+// genesis) and then a link C1->C2 that lies strictly inside genesis->C3. A span check that stops
+// at the first link of the target the validator signed (C2->C3, harmless) admits it.
+func genCaseNestedAfterTwoLinks(c *Ctx, mode string) {
+	rng := c.Rng
+	E := uint64(2 + rng.Intn(2))
+	nc := newNodeCase(c, mode, E, 4, -1, 2)
+	defer nc.close()
+	tip := "b0"
+	var blocks []string
+	for i := 0; i < int(3*E); i++ {
+		tip = nc.defBlock(tip, 0, 0, nil)
+		if tip == "" {
+			return
+		}
+		blocks = append(blocks, tip)
+		nc.deliver(tip)
+	}
+	c1, c2, c3 := blocks[E-1], blocks[2*E-1], blocks[3*E-1]
+	for _, v := range rng.Perm(3) {
+		nc.vote(1+v, "b0", c1, true) // C1 justified
+	}
+	for _, v := range rng.Perm(3) {
+		nc.vote(1+v, c1, c2, true) // C2 justified (C1 finalized)
+	}
+	first := [][2]string{{c2, c3}, {"b0", c3}}
+	if rng.Intn(2) == 0 {
+		first[0], first[1] = first[1], first[0]
+	}
+	for _, e := range first {
+		nc.vote(0, e[0], e[1], true)
+	}
+	nc.vote(0, c1, c2, true) // strictly inside genesis -> C3: must be refused
+	c.Count("nested-after-two-links-cases")
+	c.Distinct(fmt.Sprintf("nested-two-links-%d-%d", c.Seed, c.nOps))
+}
+
 func genCaseTree(c *Ctx, mode string) {
 	rng := c.Rng
-	if mode == "tree" && rng.Intn(10) == 0 {
-		genCasePruneThenEquivocate(c, mode)
-		return
+	if mode == "tree" {
+		switch rng.Intn(20) {
+		case 0, 1:
+			genCasePruneThenEquivocate(c, mode)
+			return
+		case 2:
+			genCaseNestedAfterTwoLinks(c, mode)
+			return
+		}
 	}
 	E := uint64(2 + rng.Intn(3))
 	nVal := 1 + rng.Intn(4)
